@@ -124,3 +124,30 @@ fn d11_sample_count_overflow() {
     let res = std::panic::catch_unwind(std::panic::AssertUnwindSafe(|| r.sample_count(1)));
     assert!(res.is_ok(), "sample_count panicked (sum of trun sample counts overflows u32)");
 }
+
+/// D-29: a moof box with a 64-bit header: its recorded offset (base of the default data offsets) was taken as
+/// `position after the header - 8`, i.e. 8 bytes into the box
+#[test]
+fn d29_moof_with_64bit_header() {
+    let (f, offs) = frag_file(&[Run { durations: Some(vec![5, 5]), sizes: vec![3, 4], default_dur: None, base_time: 0 }], None);
+    let m = offs[0] as usize;
+    let old_size = u32::from_be_bytes([f[m], f[m + 1], f[m + 2], f[m + 3]]) as usize;
+    // rewrite the moof header in its 64-bit form: size field 1, type, largesize = old size + 8
+    let mut g = f[..m].to_vec();
+    g.extend_from_slice(&1u32.to_be_bytes());
+    g.extend_from_slice(b"moof");
+    g.extend_from_slice(&((old_size + 8) as u64).to_be_bytes());
+    let mut body = f[m + 8..m + old_size].to_vec();
+    // the trun data offset is relative to the first byte of the moof box, which is now 8 bytes longer
+    let want_off = (old_size as i32) + 8;
+    let needle = want_off.to_be_bytes();
+    let at = body.windows(4).position(|w| w == needle).expect("data_offset field");
+    body[at..at + 4].copy_from_slice(&(want_off + 8).to_be_bytes());
+    g.extend_from_slice(&body);
+    g.extend_from_slice(&f[m + old_size..]);
+    let payload_start = (m + old_size + 8 + 8) as u64;
+    let mut r = open(g).unwrap();
+    assert_eq!(r.sample_offset(1, 1).unwrap(), payload_start);
+    let s = r.read_sample(1, 2).unwrap().unwrap();
+    assert_eq!(&s.bytes[..], &[3u8, 4, 5, 6][..]);
+}
